@@ -27,9 +27,9 @@ from vf.runner import Violation
 
 # Tolerances (row-scaled: |Jad - Jfd|_rowmax / (1 + |Jad|_rowmax + |g_row|)).  Central differences with h=1e-6 have
 # truncation ~ h^2 |g'''| and rounding ~ eps*cond*|g|/h ~ 1e-10*cond; worst observed on the unchanged tree over seeds
-# 1-3 quick + thorough: 3e-8 (FD) and 2e-13 (fwd vs rev) -> fixed at ~100x.
-TOL_FD = 5e-6
-TOL_FWD_REV = 1e-10
+# 1-3 quick + thorough: 4.5e-7 (FD) and 1.6e-13 (fwd vs rev) -> fixed at ~100x.
+TOL_FD = 5e-5
+TOL_FWD_REV = 2e-11
 H = 1e-6
 CLAMP_EXCL = 1e-3
 
